@@ -33,10 +33,12 @@ META = {
                    "glob-free names = plain prefix); extra_path is exactly the unmatched suffix and is what appendpath/"
                    "{relpath} receive; get_sections is the matching sections sorted by (number of parts, id) descending "
                    "and cut at the first section whose ignore_parents is true (that section included in the cut); "
-                   "Stack.get returns the value of the first such section defining the option. The value round trip "
-                   "through Stack.set/get holds exactly for values without newline and without both quote kinds "
-                   "(guarded theorem) and is REFUTED otherwise (machine-checked witnesses, replayed on breezy: candidate "
-                   "findings). ConfigObj's quoting/parsing is environment: modelled, tied by the correspondence run only."),
+                   "Stack.get returns the value of the first such section defining the option. Value round trip "
+                   "(after the repair /repo 4293772 of IniFileStore.unquote): in memory Stack.set/get returns EVERY accepted "
+                   "value unchanged (unguarded theorem; the only exclusion is ConfigObj's explicit refusal, characterised); "
+                   "through save + reload it holds under an executable guard and is REFUTED on the residue class (single "
+                   "line, both kinds of quote, no '#', same quote at both ends: known finding C49-mixed-quotes). "
+                   "ConfigObj's quoting/parsing is environment: modelled, tied by the correspondence run only."),
     "level_note": ("Trusted: Coq kernel, vm_compute, the hand model's correspondence (sampled, not exhaustive), the Gallina "
                    "models of fnmatch.translate, ConfigObj._quote/_unquote/file layer and urlutils.join/basename on plain paths."),
     "design_ref": "DESIGN.md §5 C49",
@@ -602,6 +604,8 @@ def oracle(inp, obs):
             return None     # refused loudly at set time: nothing was stored
         if mem != v:
             return "Stack.set(%r) then Stack.get on the same stack gives %r" % (v, mem)
+        if isinstance(got, Err) and str(got) == "ConfigObjError":
+            return None     # save refused loudly (ConfigObj cannot quote the text): nothing was written
         if got != v:
             return "Stack.set(%r), save, fresh Stack.get gives %r" % (v, got)
         return None
@@ -618,18 +622,28 @@ def oracle(inp, obs):
 LINEBREAKS = set("\r\x0b\x0c\x1c\x1d\x1e\x85  ")
 
 
+def _has_both_quotes(v):
+    return "'" in v and '"' in v
+
+
 def finding_matches(fid, inp, obs, why):
+    """C49-multiline is fixed (/repo 4293772); C49-mixed-quotes is narrowed to its residue."""
     k = inp["kind"]
     if k == "value":
         v = inp["v"]
-        if fid == "C49-multiline":
-            return "\n" in v
-        if fid == "C49-mixed-quotes":
-            return "\n" not in v and "'" in v and '"' in v
         if fid == "C49-linebreak":
-            return "\n" not in v and not ("'" in v and '"' in v) and bool(set(v) & LINEBREAKS)
+            # any line boundary other than LF: unparsable file, or (inside a multi-line
+            # value) silently rewritten to LF
+            return bool(set(v) & LINEBREAKS)
+        if set(v) & LINEBREAKS:
+            return False
+        if fid == "C49-mixed-quotes":
+            # residue: single line, both kinds of quote, no '#', same quote at both ends;
+            # only the save + reload path is damaged
+            return ("\n" not in v and _has_both_quotes(v) and "#" not in v and len(v) >= 2
+                    and v[0] == v[-1] and v[0] in "'\"" and obs[0] == v)
         if fid == "C49-unicode-space":
-            return ("\n" not in v and not ("'" in v and '"' in v) and not (set(v) & LINEBREAKS)
+            return ("\n" not in v and not _has_both_quotes(v)
                     and v.strip() != v and v.strip(" \t") == v)
     if k == "selfloc":
         loc = inp["location"]
